@@ -197,10 +197,10 @@ CHECKS['C14'] = {
 
 CHECKS['C12'] = {
     'grid': {'sets': ['c12'], 'bound': 'every file content of up to 2 lines over a 4-line pool with LF / CRLF / no final terminator (109 contents) as one file, all ordered pairs of 21 of them and all ordered triples of 6 as several files; lines of 1 byte .. 3 MB; 2 x 3000 lines; invalid-UTF-8 lines in the input and in the joined file; SELECT input, COUNT(*) and an inner join whose joined file is the grid file (1247 cases)'},
-    'verus_units': ['executor', 'joinload'],
+    'verus_units': ['executor', 'joinload', 'converter'],
     'clause_prefixes': ['c12'],
     'technique': 'contract-based deductive verification (Verus): FileExecutor::execute (both nested reader loops, labelled break) extracted from /repo and proved equal to a recursive run function sem_run; the property is proved as lemmas about sem_run',
-    'claim': 'Proof for all files (item sequences), engines and flag values that the lines handed to the query by FileExecutor::execute are exactly sem_run(history, files, flag): files in command-line order, lines in file order, each at most once, stopping only at an unreadable line (reported as Err), a failing query (Err), a reached LIMIT or an interrupt; lemma: when nothing stops the run, every line of every file reaches the query exactly once in order, so several files equal their concatenation; statistics.total_lines counts exactly those lines.',
+    'claim': 'Proof for all files (item sequences), engines and flag values that the lines handed to the query by FileExecutor::execute are exactly sem_run(history, files, flag): files in command-line order, lines in file order, each at most once, stopping only at an unreadable line (reported as Err), a failing query (Err), a reached LIMIT or an interrupt; lemma: when nothing stops the run, every line of every file reaches the query exactly once in order, so several files equal their concatenation; statistics.total_lines counts exactly those lines. The joined file: JoinedTableData::execute hands every line to its engine once, in file order (unit joinload), and the statement of that engine is SELECT * without WHERE / LIMIT / DISTINCT (unit converter, slice execute/statement).',
     'note': 'Trusted: BufRead::lines() yields the items of the file in order (stand-in VReader::lines, materialised: rule E4), std::mem::take, the engine as a state machine over its line history, statistics counters do not overflow within a run (vx_count_* stand-ins). The byte-level splitting of a file into lines (final line without newline, CRLF) is std::io::Lines, not verified. The loader of the joined file (JoinedTableData::execute) is covered by unit joinload in the same style (sem_load).',
     'level': 'proof',
     'explanation': 'code == sem_run is proved against the extracted text with loop invariants in forward style; lemma_every_line_of_every_file, lemma_interrupted_run_consumes_nothing and lemma_limit_reached_consumes_nothing are pure spec-level inductions.',
